@@ -665,3 +665,402 @@ def m_ambient(ctx):
 @M.reg_re(r"^<alloc::boxed::Box<dyn core::error::Error.*as core::convert::From<.*>>::from$|^alloc::boxed::convert::|^<alloc::boxed::Box<.*> as core::convert::From<")
 def m_box_from(ctx):
     return ctx.top_ret()
+
+
+# ----------------------------------------------------------------------------- Option / Result routing combinators
+# Each variant of the receiver is analysed in its own copy of the state (with the receiver's conditional
+# refinements for that variant applied), the closure — if any — runs there, and the case states are
+# joined; the result travels through the join in a scratch cell, so it gets phi symbols and
+# conditional refinements like any other merged value.
+_TRANSPLANT = ("cells", "iv", "lin", "cmpd", "ovf", "notd", "absd", "discr", "when", "facts", "dead", "log", "gen")
+
+
+def _sub_ctx(ctx, T, tag):
+    return type(ctx)(ctx.I, T, ctx.frame, ctx.inst, ctx.bi, ctx.t, ctx.r, ctx.args, ctx.site + (tag,))
+
+
+def join_cases(ctx, cases, tag):
+    """cases: [(state, value)] -> value; ctx.S becomes the join of the live case states."""
+    from .join import join
+
+    cell = ("hofret",) + ctx.site + (tag,)
+    live = [(T, v) for T, v in cases if not T.dead and v is not None]
+    if not live:
+        ctx.S.dead = True
+        return None
+    for T, v in live:
+        T.cells[cell] = v
+    J = live[0][0]
+    for n, (T, _) in enumerate(live[1:]):
+        J = join(J, T, ("hofj",) + ctx.site + (tag, n))
+    ret = J.cells.pop(cell, None)
+    for name in _TRANSPLANT:
+        setattr(ctx.S, name, getattr(J, name))
+    return ret
+
+
+def mutating_closure(ctx, f):
+    """Closures handed to std functions are analysed once per case; one that writes to captured state through
+    `&mut` would need a fixpoint over its invocations, which is not modelled: fail closed."""
+    if isinstance(f, Ref):
+        f = ctx.deref(f, "mc")
+    if isinstance(f, Struct) and f.path.startswith("closure:"):
+        return any(isinstance(x, Ref) and x.mut for x in f.fields)
+    return False
+
+
+def _route(ctx, on_pos, on_neg, kind):
+    """on_pos(ctx_T, payload) / on_neg(ctx_T, payload-or-None) -> value, each run in its own state."""
+    e = ctx.args[0]
+    P, N = ("Some", "None") if kind == OPT else ("Ok", "Err")
+    if not isinstance(e, Enum):
+        return ctx.top_ret()
+    cases = []
+    for var, fn in ((P, on_pos), (N, on_neg)):
+        if var not in e.variants:
+            continue
+        T = ctx.S.copy()
+        d = e.when.get(var)
+        if d is not None:
+            T.apply_delta(d)
+        if T.dead:
+            continue
+        c2 = _sub_ctx(ctx, T, "case" + var)
+        payload = e.variants[var][0] if e.variants[var] else None
+        v = fn(c2, payload)
+        cases.append((T, v))
+    return join_cases(ctx, cases, "route")
+
+
+def _callf(arg_index, wrap=None, with_payload=True):
+    def run(c, payload):
+        f = c.args[arg_index]
+        if mutating_closure(c, f):
+            c.pre("closure passed to a std combinator writes to captured state (not modelled)", False)
+        r = call_callable(c, f, [payload] if (with_payload and payload is not None) else [], "f%d" % arg_index)
+        if r is None:
+            return None
+        return wrap(r) if wrap else r
+
+    return run
+
+
+def _keep(wrap):
+    return lambda c, payload: wrap(payload)
+
+
+def _arg(i):
+    return lambda c, payload: c.args[i]
+
+
+def _some(v):
+    return Enum(OPT, {"Some": (v,)})
+
+
+def _none(c=None, payload=None):
+    return Enum(OPT, {"None": ()})
+
+
+def _ok(v):
+    return Enum(RES, {"Ok": (v,)})
+
+
+def _err(v):
+    return Enum(RES, {"Err": (v,)})
+
+
+_ROUTES = {
+    # Option
+    "core::option::Option::<T>::map": (OPT, _callf(1, _some), _none),
+    "core::option::Option::<T>::and_then": (OPT, _callf(1), _none),
+    "core::option::Option::<T>::map_or": (OPT, _callf(2), _arg(1)),
+    "core::option::Option::<T>::map_or_else": (OPT, _callf(2), _callf(1, None, False)),
+    "core::option::Option::<T>::unwrap_or": (OPT, _keep(lambda p: p), _arg(1)),
+    "core::option::Option::<T>::unwrap_or_else": (OPT, _keep(lambda p: p), _callf(1, None, False)),
+    "core::option::Option::<T>::or_else": (OPT, _keep(_some), _callf(1, None, False)),
+    "core::option::Option::<T>::or": (OPT, _keep(_some), _arg(1)),
+    "core::option::Option::<T>::and": (OPT, _arg(1), _none),
+    # Result
+    "core::result::Result::<T, E>::map": (RES, _callf(1, _ok), _keep(_err)),
+    "core::result::Result::<T, E>::and_then": (RES, _callf(1), _keep(_err)),
+    "core::result::Result::<T, E>::map_or": (RES, _callf(2), _arg(1)),
+    "core::result::Result::<T, E>::map_or_else": (RES, _callf(2), _callf(1)),
+    "core::result::Result::<T, E>::unwrap_or": (RES, _keep(lambda p: p), _arg(1)),
+    "core::result::Result::<T, E>::unwrap_or_else": (RES, _keep(lambda p: p), _callf(1)),
+    "core::result::Result::<T, E>::or_else": (RES, _keep(_ok), _callf(1)),
+}
+
+
+def m_route(ctx):
+    kind, on_pos, on_neg = _ROUTES[ctx.r["def"]]
+    return _route(ctx, on_pos, on_neg, kind)
+
+
+for _p in _ROUTES:
+    M.exact[_p] = m_route
+
+
+@M.reg("core::option::Option::<T>::filter")
+def m_opt_filter(ctx):
+    e = ctx.args[0]
+    if not isinstance(e, Enum):
+        return ctx.top_ret()
+
+    def pos(c, payload):
+        f = c.args[1]
+        if mutating_closure(c, f):
+            c.pre("closure passed to a std combinator writes to captured state (not modelled)", False)
+        cell = ("filt",) + c.site
+        c.S.cells[cell] = payload
+        call_callable(c, f, [Ref(cell, (), False)], "pred")
+        return Enum(OPT, {"Some": (payload,), "None": ()})
+
+    return _route(ctx, pos, _none, OPT)
+
+
+# ----------------------------------------------------------------------------- more iterator adapters / consumers
+@M.reg("core::iter::traits::iterator::Iterator::map")
+def m_iter_map(ctx):
+    it = to_iter(ctx, ctx.args[0])
+    if mutating_closure(ctx, ctx.args[1]):
+        ctx.pre("closure passed to an iterator adapter writes to captured state (not modelled)", False)
+    return Iter("map", it, ctx.args[1], None, it.finite)
+
+
+@M.reg("core::iter::traits::iterator::Iterator::filter_map", "core::iter::traits::iterator::Iterator::filter")
+def m_iter_filter(ctx):
+    it = to_iter(ctx, ctx.args[0])
+    if mutating_closure(ctx, ctx.args[1]):
+        ctx.pre("closure passed to an iterator adapter writes to captured state (not modelled)", False)
+    return Iter("filter_map" if ctx.r["def"].endswith("filter_map") else "filter", it, ctx.args[1], None, it.finite)
+
+
+@M.reg("core::iter::traits::iterator::Iterator::skip")
+def m_iter_skip(ctx):
+    it = to_iter(ctx, ctx.args[0])
+    return Iter("skip", it, None, scalar_arg(ctx, ctx.args[1]), it.finite)
+
+
+_iter_item0 = iter_item
+
+
+def iter_item(ctx, it, tag):  # noqa: F811  (extends the item function above with the new adapter kinds)
+    k = it.kind
+    if k == "map":
+        item, end = iter_item(ctx, it.a, tag + "m")
+        if item is None:
+            return None, end
+        r = call_callable(ctx, it.b, [item], tag + "mf")
+        return (r if r is not None else Opaque()), end
+    if k in ("filter", "filter_map"):
+        item, end = iter_item(ctx, it.a, tag + "f")
+        if item is None:
+            return None, True
+        if k == "filter":
+            cell = ("fit",) + ctx.site + (tag,)
+            ctx.S.cells[cell] = item
+            call_callable(ctx, it.b, [Ref(cell, (), False)], tag + "ff")
+            return item, True
+        r = call_callable(ctx, it.b, [item], tag + "ff")
+        if isinstance(r, Enum) and r.path == OPT:
+            if "Some" not in r.variants:
+                return None, True
+            return r.variants["Some"][0], True
+        return Opaque(), True
+    if k == "skip":
+        item, end = iter_item(ctx, it.a, tag + "s")
+        return item, True
+    if k == "range":
+        I, S = ctx.I, ctx.S
+        lo_, hi_ = it.a, it.b  # Scalars
+        rng = I.st.range(lo_.sym)
+        idx = ctx.fresh(tag + "ri", rng)
+        S.add_fact(S.term(lo_.sym).sub(Lin.var(idx)))  # lo <= idx
+        S.add_fact(Lin.var(idx).sub(S.term(hi_.sym)).addc(0 if it.n == "inclusive" else 1))  # idx < hi
+        if S.dead:
+            S.dead = False  # empty range: no item (the state itself stays reachable)
+            return None, True
+        return Scalar(idx), True
+    return _iter_item0(ctx, it, tag)
+
+
+@M.reg_re(r"as core::iter::traits::iterator::Iterator>::next$|as core::iter::traits::double_ended::DoubleEndedIterator>::next_back$|^core::iter::range::<impl core::iter::traits::iterator::Iterator for core::ops::range::Range(Inclusive)?<A>>::next$")
+def m_next2(ctx):
+    it = ctx.deref(ctx.args[0], "self")
+    if isinstance(it, Struct) and it.path in ("core::ops::range::Range", "core::ops::range::RangeInclusive"):
+        it = range_iter(ctx, it)
+    if not isinstance(it, Iter):
+        return ctx.top_ret()
+    T = ctx.S.copy()
+    c2 = _sub_ctx(ctx, T, "nx")
+    item, may_end = iter_item(c2, it, "nx")
+    ctx.I.iter_sites[(ctx.frame, ctx.bi)] = bool(it.finite) and it.kind != "opaque"
+    for h in ctx.I.hooks:
+        h("iter_next", interp=ctx.I, ctx=ctx, it=it)
+    cases = []
+    if item is not None and not T.dead:
+        cases.append((T, some(item)))
+    if may_end or item is None:
+        cases.append((ctx.S.copy(), none()))
+    return join_cases(ctx, cases, "next")
+
+
+M.patterns = [(rx, fn) for rx, fn in M.patterns if fn is not m_next]
+
+
+def range_iter(ctx, r):
+    if r.path == "core::ops::range::Range" and len(r.fields) == 2 and all(isinstance(x, Scalar) for x in r.fields):
+        return Iter("range", r.fields[0], r.fields[1], "exclusive", True)
+    if r.path == "core::ops::range::RangeInclusive" and len(r.fields) >= 2 and all(isinstance(x, Scalar) for x in r.fields[:2]):
+        return Iter("range", r.fields[0], r.fields[1], "inclusive", True)
+    return Iter("opaque", None, None, None, False)
+
+
+_to_iter0 = to_iter
+
+
+def to_iter(ctx, v, tag="it"):  # noqa: F811
+    if isinstance(v, Struct) and v.path in ("core::ops::range::Range", "core::ops::range::RangeInclusive"):
+        return range_iter(ctx, v)
+    return _to_iter0(ctx, v, tag)
+
+
+@M.reg("<I as core::iter::traits::collect::IntoIterator>::into_iter")
+def m_into_iter2(ctx):
+    return to_iter(ctx, ctx.args[0])
+
+
+@M.reg("alloc::vec::Vec::<T, A>::extend", "<alloc::vec::Vec<T, A> as core::iter::traits::collect::Extend<T>>::extend", "<alloc::vec::Vec<T, A> as core::iter::traits::collect::Extend<&'a T>>::extend")
+def m_vec_extend(ctx):
+    S, I = ctx.S, ctx.I
+    ref = ctx.args[0]
+    v = ctx.deref(ref, "vec")
+    it = to_iter(ctx, ctx.args[1])
+    if not (isinstance(ref, Ref) and ref.cell is not None and isinstance(v, Seq)) or it.kind == "opaque":
+        ctx.pre("Vec::extend with a finite, modelled iterator", False)
+        if isinstance(ref, Ref) and ref.cell is not None:
+            I.write(S, ref.cell, ref.path, Opaque(), ctx.site + ("xw",))
+        return UNIT
+    ctx.pre("Vec::extend with a finite iterator", bool(it.finite))
+    T = S.copy()
+    c2 = _sub_ctx(ctx, T, "xi")
+    item, _ = iter_item(c2, it, "xt")
+    # state after zero items: unchanged; after >= 1 item: one more element kind, longer
+    cases = [(S.copy(), v)]
+    if item is not None and not T.dead:
+        ns = c2.fresh("xlen", I.len_rng(), D.rng(1, I.max_len()))
+        T.add_fact(T.term(v.len).sub(Lin.var(ns)).addc(1))  # old len + 1 <= new len
+        el = item if v.elem is None else I.join_vals(T, [v.elem, item], ctx.site + ("xj",))
+        cases.append((T, Seq(v.kind, ns, el, (), None, v.prov)))
+    out = join_cases(ctx, cases, "extend")
+    if out is not None:
+        I.write(ctx.S, ref.cell, ref.path, out, ctx.site + ("xw",))
+    return UNIT
+
+
+@M.reg("core::iter::traits::iterator::Iterator::find")
+def m_iter_find(ctx):
+    it = ctx.deref(ctx.args[0], "self")
+    if not isinstance(it, Iter):
+        return ctx.top_ret()
+    if mutating_closure(ctx, ctx.args[1]):
+        ctx.pre("closure passed to an iterator consumer writes to captured state (not modelled)", False)
+    item, _ = iter_item(ctx, it, "fd")
+    if item is None:
+        return none()
+    cell = ("find",) + ctx.site
+    ctx.S.cells[cell] = item
+    call_callable(ctx, ctx.args[1], [Ref(cell, (), False)], "fdp")
+    return option(item)
+
+
+# ----------------------------------------------------------------------------- Option<&T> / strings / more slices
+@M.reg("core::option::Option::<&T>::copied", "core::option::Option::<&T>::cloned", "core::option::Option::<&mut T>::copied")
+def m_opt_copied(ctx):
+    e = ctx.args[0]
+    if not isinstance(e, Enum):
+        return ctx.top_ret()
+    vs = {}
+    for k, fs in e.variants.items():
+        vs[k] = tuple((ctx.deref(x, "oc") if isinstance(x, Ref) else x) for x in fs)
+    return Enum(OPT, vs, dict(e.when))
+
+
+@M.reg("alloc::string::String::push", "alloc::string::String::push_str")
+def m_string_push(ctx):
+    S, I = ctx.S, ctx.I
+    ref = ctx.args[0]
+    v = ctx.deref(ref, "str")
+    if isinstance(ref, Ref) and ref.cell is not None and isinstance(v, Seq):
+        if ctx.r["def"].endswith("push_str"):
+            q, _ = seq_of(ctx, ctx.args[1], "ps")
+            add = S.term(len_sym(ctx, q)) if isinstance(q, (Seq, Arr)) else None
+        else:
+            add = None  # a char is 1..=4 bytes
+        if add is not None:
+            nl = S.term(v.len).add(add)
+            ns = ctx.fresh("slen", I.len_rng(), D.meet(S.eval(nl), D.rng(0, I.max_len())), nl)
+        else:
+            ns = ctx.fresh("slen", I.len_rng(), D.rng(1, I.max_len()))
+            S.add_fact(S.term(v.len).sub(Lin.var(ns)).addc(1))
+        I.write(S, ref.cell, ref.path, Seq(v.kind, ns, v.elem, (), None, v.prov), ctx.site + ("spw",))
+    elif isinstance(ref, Ref) and ref.cell is not None:
+        I.write(S, ref.cell, ref.path, Opaque(), ctx.site + ("spw",))
+    return UNIT
+
+
+@M.reg("core::str::<impl str>::strip_prefix", "core::str::<impl str>::strip_suffix", "core::slice::<impl [T]>::strip_prefix", "core::slice::<impl [T]>::strip_suffix")
+def m_strip(ctx):
+    S = ctx.S
+    v, ref = seq_of(ctx, ctx.args[0])
+    if not isinstance(v, Seq):
+        return ctx.top_ret()
+    ns = ctx.fresh("strip", ctx.I.len_rng(), D.rng(0, ctx.I.max_len()))
+    S.add_fact(Lin.var(ns).sub(S.term(v.len)))  # shorter or equal
+    out = Seq(v.kind, ns, v.elem, (), None, v.prov | (frozenset([("suffix-of", ref.cell)]) if ref is not None and ctx.r["def"].endswith("prefix") else frozenset()))
+    return option(derived(ctx, out, "stripped"))
+
+
+@M.reg("core::slice::ascii::<impl [u8]>::trim_ascii", "core::slice::ascii::<impl [u8]>::trim_ascii_start", "core::slice::ascii::<impl [u8]>::trim_ascii_end", "core::str::<impl str>::trim_ascii", "core::str::<impl str>::trim_start", "core::str::<impl str>::trim_end")
+def m_trim_ascii(ctx):
+    S = ctx.S
+    v, ref = seq_of(ctx, ctx.args[0])
+    if not isinstance(v, Seq):
+        return ctx.top_ret()
+    ns = ctx.fresh("trimmed", ctx.I.len_rng(), D.rng(0, ctx.I.max_len()))
+    S.add_fact(Lin.var(ns).sub(S.term(v.len)))
+    return derived(ctx, Seq(v.kind, ns, v.elem, v.efacts, None, v.prov | (frozenset([("substr-of", ref.cell)]) if ref is not None else frozenset())), "trimmed")
+
+
+@M.reg("core::slice::<impl [T]>::contains")
+def m_slice_contains(ctx):
+    return bool_top(ctx)
+
+
+@M.reg("core::slice::<impl [T]>::last_chunk")
+def m_last_chunk(ctx):
+    from .models import arr_of_fresh
+
+    S = ctx.S
+    n = ctx.garg_const(0)
+    v, ref = seq_of(ctx, ctx.args[0])
+    ln = len_sym(ctx, v)
+    d = Lin.const(n).sub(S.term(ln))
+    can_some = not S.entails(d.scale(-1).addc(1))
+    can_none = not S.entails(d)
+    # the last n bytes: offsets are relative to the end, so no byte-offset provenance is given
+    if isinstance(v, Seq):
+        v = Seq(v.kind, v.len, v.elem, v.efacts, None, frozenset(t for t in v.prov if t[0] != "read"))
+    head = derived(ctx, arr_of_fresh(ctx, v, n, "lc"), "h")
+    vs, w = {}, {}
+    if can_none:
+        vs["None"] = ()
+        w["None"] = Delta({}, [d.scale(-1).addc(1)])
+    if can_some:
+        vs["Some"] = (head,)
+        w["Some"] = Delta({}, [d])
+    return Enum(OPT, vs, w)
+
+
+M.exact["<alloc::vec::Vec<T, A> as core::ops::index::Index<I>>::index"] = M.exact["core::slice::index::<impl core::ops::index::Index<I> for [T]>::index"]
+M.exact["<alloc::vec::Vec<T, A> as core::ops::index::IndexMut<I>>::index_mut"] = M.exact["core::slice::index::<impl core::ops::index::Index<I> for [T]>::index"]
